@@ -198,7 +198,58 @@ def _merge_triples(a: int, b: int, c: int, nested: bool) -> bool:
     return result(ok, conflict)
 
 
+# ---- variables used through a fragment that several operations share (each operation declares its own types)
+STYPES = ("Boolean!", "Boolean", "Boolean = true", "Int", None)          # declaration of $s (None = not declared)
+XTYPES = ("Int", "Int!", "Int = 2", "String", "[Int]", None)             # declaration of $x
+
+
+def _decl(name, t):
+    return "" if t is None else "$%s: %s" % (name, t)
+
+
+def _shared_fragment_ops(s1: int, x1: int, s2: int, x2: int, depth: int, order: bool) -> bool:
+    """
+    pre: 0 <= s1 < len(STYPES) and 0 <= x1 < len(XTYPES) and 0 <= s2 < len(STYPES) and 0 <= x2 < len(XTYPES) and 0 <= depth <= 1
+    pre: shard_of(s1 * len(XTYPES) + x1)
+    post: _
+    """
+    S1, X1, S2, X2 = pick(s1, STYPES), pick(x1, XTYPES), pick(s2, STYPES), pick(x2, XTYPES)
+    D = concrete_int(depth, 0, 1)
+    ORD = True if order else False
+    with untraced():
+        def op(name, st, xt):
+            decls = ", ".join(d for d in (_decl("s", st), _decl("x", xt)) if d)
+            return "query %s%s { me { ...Shared } }" % (name, ("(%s)" % decls) if decls else "")
+        shared = "fragment Shared on User { name @skip(if: $s) %s }" % ("...Inner" if D else "score(scale: $x)")
+        inner = "fragment Inner on User { score(scale: $x) }" if D else ""
+        parts = [op("First", S1, X1), op("Second", S2, X2), shared, inner]
+        text = " ".join(parts if ORD else [parts[1], parts[0], parts[3], parts[2]])
+
+        def ok_decl(st, xt):
+            # spec 5.8.5 All Variable Usages Are Allowed: $s feeds a Boolean! argument, $x an Int argument with a default
+            s_ok = st in ("Boolean!", "Boolean = true")
+            x_ok = xt in ("Int", "Int!", "Int = 2")
+            return s_ok and x_ok
+        expected_valid = ok_decl(S1, X1) and ok_decl(S2, X2)
+        doc = parse(text)
+        schema = G.build_real_schema()
+        errors = validate_ast(schema, doc).errors
+        ok = (not errors) == expected_valid
+        if ok and expected_valid:
+            for name in ("First", "Second"):
+                res = graphql_blocking(schema, text, variables={"s": False, "x": 3}, root=G.make_data(), operation_name=name)   # must not raise
+                ok = ok and isinstance(res.response().get("data"), dict)
+    return result(ok, expected_valid)
+
+
 CONDITIONS = [
+    Cond(
+        name="shared_fragment_ops", fn=_shared_fragment_ops, quick=100, thorough=200, per_path=60, shards_quick=15, shards_thorough=15,
+        bound="two operations spreading one fragment (directly or through a second fragment) that uses $s in @skip(if:) and $x as an Int argument; each operation declares $s / $x with one of 5 / 6 declarations (compatible, nullable, defaulted, "
+              "wrong type, missing), both definition orders: validation accepts exactly when BOTH operations declare compatible types, and then both execute",
+        symbolic={"s1,x1,s2,x2": "choice: variable declarations of the two operations", "depth": "choice: direct or transitive usage", "order": "choice: definition order"},
+        assumptions=["reference: spec 5.8.3-5.8.5 (undefined / unused / allowed variable usages) for this family"], witness={"s1": 0, "x1": 0, "s2": 0, "x2": 1, "depth": 0, "order": True},
+    ),
     Cond(
         name="merge_triples", fn=_merge_triples, quick=100, thorough=200, per_path=60, shards_quick=9, shards_thorough=9,
         bound="three same-response-key selections drawn from 9 variants (different fields, different arguments, composite sub-selections), flat in one selection set or spread over three merged parent fields: "
